@@ -274,6 +274,14 @@ class TimeCachingAdapter(Adapter, NoBranchAdapter, ABC):
             else:
                 self._total_mem -= d[1].nbytes
 
+    def _unpack(self, where):
+        # cached data was pulled through the adapter's input: it carries the input units,
+        # which differ from the output units for adapters that rewrite them
+        if isinstance(where, str):
+            data = np.load(where, allow_pickle=True)
+            return dtools.UNITS.Quantity(data, self._input_info.units)
+        return where
+
     def _finalize(self):
         """Drops the cached data and removes the files it was dumped to."""
         for _t, d in self.data:
